@@ -5,6 +5,7 @@ From Coq Require Import List String Ascii Bool ZArith.
 From Qryn Require Import model.Quote model.ChLex model.Like model.SqlSites model.SqlTemplate model.SqlPieces gen.GenC10Sites.
 From Qryn Require Import proofs.QuoteProofs proofs.ChLexProofs proofs.LikeProofs proofs.SqlSitesProofs proofs.SqlTemplateProofs
   proofs.SqlPiecesProofs.
+From Qryn Require model.TqSql model.TqPieces proofs.TqPiecesProofs.   (* qualified: TqSql re-uses the names of Sql *)
 Import ListNotations.
 Open Scope string_scope.
 
@@ -202,3 +203,25 @@ Example tree_example :
   | None => False
   end.
 Proof. vm_compute. repeat split; reflexivity. Qed.
+
+(* ---- the same for C11's TraceQL renderer (model/TqSql.v: Select.String and the planner-local SQL objects of
+   clickhouse_transpiler, tied byte for byte to the real planners by C11): StringVal nodes, the expression of matchRe and
+   the attribute name of sqlAttrValue are value pieces, 's' written by Sprintf is a raw-quoted piece *)
+Theorem traceql_renderer_factors_through_pieces : forall s, TqSql.render s = flat (TqPieces.tq_pieces s).
+Proof. exact TqPiecesProofs.tq_render_pieces. Qed.
+Print Assumptions traceql_renderer_factors_through_pieces.
+
+Theorem traceql_statement_tokens : forall s, pok QN (TqPieces.tq_pieces s) = true ->
+  lex (TqSql.render s) = etoks QN (TqPieces.tq_pieces s) /\
+  lits (lex (TqSql.render s)) = elits QN (TqPieces.tq_pieces s).
+Proof. exact TqPiecesProofs.tq_rendered_tokens. Qed.
+Print Assumptions traceql_statement_tokens.
+
+Example traceql_tree_example :
+  let q := TqSql.Sel [] false [TqSql.Col (TqSql.Id "trace_id") ""; TqSql.GroupBitOr (TqSql.BitSet [TqSql.LOp TqSql.OEq [TqSql.Id "key"; TqSql.StrV "zqxmark"]]) "bsCond"]
+             (Some (TqSql.Id "tempo_traces_attrs_gin")) [] None
+             (Some (TqSql.LOp TqSql.OAnd [TqSql.LOp TqSql.OEq [TqSql.Id "key"; TqSql.StrV "zqxmark"];
+                                            TqSql.LOp TqSql.OEq [TqSql.MatchRe (TqSql.Id "val") "^(?:zqxmark)$"; TqSql.IntV 1]]))
+             (Some (TqSql.LOp TqSql.OGt [TqSql.AttrValue "zqxmark"; TqSql.FloatV "5"])) [TqSql.Id "trace_id"] [] (Some (TqSql.IntV 20)) in
+  pok QN (TqPieces.tq_pieces q) = true /\ List.length (rvalues (TqPieces.tq_pieces q)) = 4%nat.
+Proof. vm_compute. split; reflexivity. Qed.
